@@ -2,6 +2,7 @@
 randomness, cloning of steps)."""
 
 import ast
+from fractions import Fraction
 import re
 
 from ..cfg import FuncCFG, walk_no_nested, ENTRY, EXIT
@@ -404,6 +405,80 @@ def r10(ctx, R):
             R.exc(c, w, B6[(cn, attr)])
         else:
             R.bad(c, w, 'state that is rebuilt before it is read, or reset at the start of a run (an entry of table B6 with the reason)', f'{how} in {w.split(":")[1]}; nothing on a path from run()/restart_block resets it')
+    multistep_reset(ctx, R)
+    missing = set(B6) - set(found)
+    if missing:
+        raise AnalysisError(f'C19.R10: tabled sweeper state not found any more: {sorted(missing)}')
+
+def _prob_aliases(fn):
+    """local names bound to a problem object (`P = L.prob`, `prob = lvl.prob`)"""
+    al = set()
+    for s in walk_no_nested(fn):
+        if isinstance(s, ast.Assign) and len(s.targets) == 1 and isinstance(s.targets[0], ast.Name) and isinstance(s.value, ast.Attribute) and s.value.attr == 'prob':
+            al.add(s.targets[0].id)
+    return al
+
+
+def _prob_attr(e, al):
+    """attribute name if e is `<..>.prob.<attr>` or `<alias>.<attr>`"""
+    if isinstance(e, ast.Attribute):
+        v = e.value
+        if isinstance(v, ast.Attribute) and v.attr == 'prob':
+            return e.attr
+        if isinstance(v, ast.Name) and v.id in al:
+            return e.attr
+    return None
+
+
+def _prob_state(fn):
+    """(writes, reads) of problem attributes in fn: {attr: [lineno]}"""
+    al = _prob_aliases(fn)
+    wr, rd = {}, {}
+    for n in ast.walk(fn):
+        if isinstance(n, (ast.Assign, ast.AugAssign)):
+            for t in (n.targets if isinstance(n, ast.Assign) else [n.target]):
+                for e in (t.elts if isinstance(t, ast.Tuple) else [t]):
+                    a = _prob_attr(e, al)
+                    if a:
+                        wr.setdefault(a, []).append(n.lineno)
+                        if isinstance(n, ast.AugAssign):
+                            rd.setdefault(a, []).append(n.lineno)
+        elif isinstance(n, ast.Attribute) and isinstance(n.ctx, ast.Load):
+            a = _prob_attr(n, al)
+            if a:
+                rd.setdefault(a, []).append(n.lineno)
+    return wr, rd
+
+
+@rule('C19', 'C19.R11', 'problem objects live as long as the controller: a problem attribute that run-time code outside the problem writes (Newton tolerance set by the inexactness controller) is a function of the step/level status and the writer\'s parameters only - no run-time module reads such an attribute back, otherwise the value used in step n depends on what an earlier step or run left behind', floor=1)
+def r11(ctx, R):
+    repo = ctx.repo
+    sites = []
+    for m, ci, fn in repo.all_functions():
+        if not _is_runtime(m.relpath):
+            continue
+        wr, rd = _prob_state(fn)
+        if wr or rd:
+            sites.append((m, ci, fn, wr, rd))
+    written = {}
+    for m, ci, fn, wr, rd in sites:
+        for a in wr:
+            written.setdefault(a, []).append(qual(m, ci, fn))
+    if 'newton_tol' not in written:
+        raise AnalysisError('C19.R11: the confirmed writer of prob.newton_tol (NewtonInexactness.set_tolerance) not found')
+    for a, ws in sorted(written.items()):
+        for w in ws:
+            R.fn(w)
+        readers = sorted({f'{qual(m, ci, fn)} line {min(rd[a])}' for m, ci, fn, wr, rd in sites if a in rd})
+        R.check(not readers, f'problem attribute {a} :: written by run-time code ({", ".join(x.split(":")[1] for x in ws)}), never read back by run-time code', ws[0], 'no read of the attribute in core / controller / sweeper / convergence-controller / transfer / hook modules', readers)
+    pc = ast.parse("def f(self, lvl):\n    P = lvl.prob\n    P.newton_tol = min(self.params.tol, P.newton_tol)\n").body[0]
+    wr, rd = _prob_state(pc)
+    if 'newton_tol' not in wr or 'newton_tol' not in rd:
+        raise AnalysisError('C19.R11 positive control not detected')
+
+
+def multistep_reset(ctx, R):
+    repo = ctx.repo
     # the one tabled history is reset when a new integration starts
     ms = repo.func('pySDC/implementations/sweeper_classes/Multistep.py', 'MultiStep.predict')
     cfg = FuncCFG(ms)
@@ -412,6 +487,50 @@ def r10(ctx, R):
     fill = [n for n, s_ in cfg.stmt_of.items() if any(isinstance(c, ast.Call) and ast.unparse(c.func) == 'self.cache.update' for c in ast.walk(s_)) and not isinstance(s_, (ast.If, ast.For))]
     ok = len(rs) == 1 and len(g) == 1 and 'self.cache.t[-1]' in g[0] and 'lvl.time' in g[0] and bool(fill) and all(cfg.reachable(cfg.node_of[id(rs[0])], n) for n in fill)
     R.check(ok, 'MultiStep.predict :: the history is re-created when the step does not continue it, before the initial value is stored', 'pySDC/implementations/sweeper_classes/Multistep.py:MultiStep.predict', 'self.cache = Cache(self.steps) if the last stored time differs from lvl.time', g)
-    missing = set(B6) - set(found)
-    if missing:
-        raise AnalysisError(f'C19.R10: tabled sweeper state not found any more: {sorted(missing)}')
+    # the test is two-sided: sign-case analysis of the extracted guard over d = lvl.time - cache.t[-1] in {0, +, -}
+    if ok:
+        gt = [t for t, pol in cfg.guards[id(rs[0])] if pol][0]
+        verdicts = {}
+        for c0 in (Fraction(1), Fraction(0), Fraction(-3)):
+            for d in (Fraction(0), Fraction(1, 2), Fraction(-1, 2)):
+                env = {'lvl.time': c0 + d, 'self.level.time': c0 + d, 'self.cache.t[-1]': c0, 'lvl.dt': Fraction(1, 2), 'self.level.dt': Fraction(1, 2)}
+                verdicts[(str(c0), str(d))] = _eval_guard(gt, env)
+        bad = sorted(f'history ends at {c0}, step starts at {c0}{"+" if not d.startswith("-") else ""}{d}: reset={v}' for (c0, d), v in verdicts.items() if v != (d != '0'))
+        R.check(not bad, 'MultiStep.predict :: the reset test is two-sided (a step starting before OR after the end of the history resets it, a continuing step does not)', 'pySDC/implementations/sweeper_classes/Multistep.py:MultiStep.predict', 'reset <=> lvl.time != cache.t[-1] on the 9 sign cases', bad)
+
+
+def _eval_guard(e, env):
+    """value of an extracted guard expression on one sign case (exact rational arithmetic; only comparisons, + - * /, abs/max/min,
+    isclose and `is (not) None` are interpreted - anything else makes the analysis fail closed)"""
+    key = ast.unparse(e)
+    if key in env:
+        return env[key]
+    if isinstance(e, ast.Constant) and isinstance(e.value, (int, float)) and not isinstance(e.value, bool):
+        return Fraction(e.value)
+    if isinstance(e, ast.BoolOp):
+        vals = [_eval_guard(v, env) for v in e.values]
+        return all(vals) if isinstance(e.op, ast.And) else any(vals)
+    if isinstance(e, ast.UnaryOp):
+        v = _eval_guard(e.operand, env)
+        return (not v) if isinstance(e.op, ast.Not) else (-v if isinstance(e.op, ast.USub) else v)
+    if isinstance(e, ast.BinOp) and isinstance(e.op, (ast.Add, ast.Sub, ast.Mult, ast.Div)):
+        a, b = _eval_guard(e.left, env), _eval_guard(e.right, env)
+        return a + b if isinstance(e.op, ast.Add) else a - b if isinstance(e.op, ast.Sub) else a * b if isinstance(e.op, ast.Mult) else a / b
+    if isinstance(e, ast.Compare):
+        if len(e.ops) == 1 and isinstance(e.ops[0], (ast.Is, ast.IsNot)) and isinstance(e.comparators[0], ast.Constant) and e.comparators[0].value is None:
+            return isinstance(e.ops[0], ast.IsNot)  # the history exists in every case considered
+        vals = [_eval_guard(v, env) for v in [e.left] + e.comparators]
+        res = True
+        for op, a, b in zip(e.ops, vals, vals[1:]):
+            res = res and {ast.Lt: a < b, ast.LtE: a <= b, ast.Gt: a > b, ast.GtE: a >= b, ast.Eq: a == b, ast.NotEq: a != b}[type(op)]
+        return res
+    if isinstance(e, ast.Call):
+        f = ast.unparse(e.func)
+        a = [_eval_guard(x, env) for x in e.args]
+        if f in ('abs', 'np.abs', 'numpy.abs') and len(a) == 1:
+            return abs(a[0])
+        if f in ('max', 'min') and a:
+            return max(a) if f == 'max' else min(a)
+        if f in ('np.isclose', 'math.isclose', 'numpy.isclose') and len(a) == 2:
+            return abs(a[0] - a[1]) <= Fraction(1, 10**6)
+    raise AnalysisError(f'C19.R10: cannot interpret the reset test of MultiStep.predict: {key}')
